@@ -42,7 +42,7 @@ THEOREMS = {
             "Layout.writer_reader_agree", "Layout.blocks_inside", "Layout.blocks_disjoint", "Layout.blocks_cover", "Layout.blocks_partition",
             "Gen.slice_table", "Gen.slices_plain", "Gen.orders_columns", "Gen.final_demand_columns", "Gen.rebuild_part_columns", "Gen.rebuild_parts_split", "Gen.resize_keeps_orders_and_final_demand", "Gen.delivery_columns", "Gen.writer_is_layout", "Gen.reader_is_layout", "Gen.code_writer_reader_agree"],
     "C20": ["psi_above_one_rejected", "schedule_outside_horizon_rejected", "excess_capital_rejected", "negative_capacity_rejected",
-            "event_tau_rejected", "event_schedule_rejected", "event_negative_impact_rejected", "event_empty_impact_rejected", "event_excess_loss_rejected", "event_shares_rejected", "event_negative_share_rejected", "event_nonpositive_factor_rejected", "event_accepted", "event_accepted_rebuild", "params_ok", "init_econ_ok", "tracker_init_ok", "inv_step", "step_quantities_nonneg", "no_silent_failure", "inv_reach"],
+            "event_tau_rejected", "event_schedule_rejected", "event_negative_impact_rejected", "event_empty_impact_rejected", "event_excess_loss_rejected", "event_shares_rejected", "event_negative_share_rejected", "event_nonpositive_factor_rejected", "event_accepted", "event_accepted_rebuild", "tracker_init_ok_accepted", "params_ok", "init_econ_ok", "tracker_init_ok", "inv_step", "step_quantities_nonneg", "no_silent_failure", "inv_reach"],
     "C02": ["specDemand_eq", "step_refines_spec", "nextStep_econ", "Records.phase_order"],
     "C19": ["lifecycle_shift", "recoverOne_shift", "eventsPost_shift", "eventsPre_shift", "shift_step", "overprod_identity_at_rest",
             "shift_step_early", "shift_run_partial", "equilibrium_step_exact", "shift_invariance", "Gen.monotony_never_incremented",
